@@ -32,6 +32,8 @@ type c05HTTPCase struct {
 	// with as many bytes as make the request body exactly Big bytes long (the megabytes are
 	// not stored in the case). All json fields of such a case are optional or defaulted.
 	Big int `json:"big,omitempty"`
+	// M: HTTP method ("" = POST). A body-less GET is only drawn when no field lives in the json part.
+	M string `json:"m,omitempty"`
 }
 
 const c05MaxBody = 8 << 20 // httpx reads at most this many bytes of a JSON body
@@ -156,12 +158,15 @@ func c05BuildStruct(fs []c05Fld, obj *c05JV, val reflect.Value) bool {
 // ---- generator ----
 
 var (
-	c05PathAlphabet   = []string{"a", "B", "7", "-", "_", ".", "~", " ", "%", "+", "é", ":", "@", "=", "&", "?", "#", ";", ",", "中", "%41"}
-	c05HeaderAlphabet = []string{"a", "B", "7", "-", "_", ".", " ", "%", "+", ":", "@", "=", "&", "?", "#", ";", ",", "\"", "é", "/"}
+	c05PathAlphabet   = []string{"a", "B", "7", "-", "_", ".", "~", " ", "%", "+", "é", ":", "@", "=", "&", "?", "#", ";", ",", "中", "%41", "%s", "%d", "%!", "*", "[", "]", "{", "}", "$", "(", ")", "|", "^", "\\", "'", "\"", "<", ">", "😀", "%2F", "%00"}
+	c05HeaderAlphabet = []string{"a", "B", "7", "-", "_", ".", " ", "%", "+", ":", "@", "=", "&", "?", "#", ";", ",", "\"", "é", "/", "%s", "%d", "%!", "*", "[", "{", "$", "(", "|", "^", "\\", "'", "<", "\t", "中"}
 )
 
 func c05GenToken(rt *rapid.T, alphabet []string, lead string) string {
 	n := rapid.IntRange(0, 6).Draw(rt, "toklen")
+	if c05Rare(rt, "longtoken", 40) {
+		n = c05Pick(rt, "longtoklen", []int{100, 255, 256, 1000, 2000})
+	}
 	var b strings.Builder
 	b.WriteString(lead)
 	for i := 0; i < n; i++ {
@@ -203,6 +208,8 @@ func c05HTTPSanitizeTyp(t *c05Typ) {
 	switch t.K {
 	case "dur":
 		t.K = "int64"
+	case "text":
+		t.K = "string"
 	case "struct":
 		t.F = c05HTTPSanitize(t.F, false)
 		if len(t.F) == 0 {
@@ -219,7 +226,8 @@ func c05HTTPSanitizeTyp(t *c05Typ) {
 func c05GenHTTPCase(rt *rapid.T) c05HTTPCase {
 	var c c05HTTPCase
 	n := rapid.IntRange(1, 6).Draw(rt, "nfields")
-	cfgJSON := &c05GenCfg{tag: "json", keyStyles: c05AllStyles, maxDepth: 3}
+	// (no "odd" keys: encoding/json, which httpc uses for nested structs, ignores tag names with some of those characters)
+	cfgJSON := &c05GenCfg{tag: "json", keyStyles: c05AllStyles[:len(c05AllStyles)-1], maxDepth: 3}
 	var members []c05KV
 	for i := 0; i < n; i++ {
 		part := c05W(rt, "part", []string{"json", "form", "path", "header"}, []int{45, 25, 15, 15})
@@ -304,6 +312,17 @@ func c05GenHTTPCase(rt *rapid.T) c05HTTPCase {
 		members = append(members, c05KV{K: key, V: v})
 	}
 	c.D = c05Obj(members...)
+	hasJSON := false
+	for i := range c.S {
+		if c.S[i].Tag == "json" {
+			hasJSON = true
+		}
+	}
+	ms := []string{"", "", "", "PUT", "PATCH", "DELETE"}
+	if !hasJSON {
+		ms = append(ms, "GET", "GET", "HEAD", "OPTIONS")
+	}
+	c.M = c05Pick(rt, "method", ms)
 	return c
 }
 
@@ -320,6 +339,9 @@ func c05GenHTTPCaseMaybeBig(rt *rapid.T) c05HTTPCase {
 		}
 	}
 	c.S = append(c.S, c05Fld{W: []string{"pad"}, T: c05Typ{K: "string"}, Tag: "json", KS: "camel", Opt: true})
+	if c.M == "GET" || c.M == "HEAD" || c.M == "OPTIONS" {
+		c.M = "" // the pad field lives in the body
+	}
 	c.Big = c05MaxBody + c05Pick(rt, "bigdelta", []int{-1024, -5, -1, 0, 1, 3, 1024, 1024, 4 << 20})
 	return c
 }
@@ -385,8 +407,13 @@ func c05InterpHTTP(c c05HTTPCase) (v kit.Verdict) {
 		parsePan any
 		bodyLen  int64
 	)
+	method := c.M
+	if method == "" {
+		method = http.MethodPost
+	}
+	classes["method:"+method] = true
 	rtr := router.NewRouter()
-	if err := rtr.Handle(http.MethodPost, pattern, http.HandlerFunc(func(w http.ResponseWriter, r *http.Request) {
+	if err := rtr.Handle(method, pattern, http.HandlerFunc(func(w http.ResponseWriter, r *http.Request) {
 		got := reflect.New(target.Type().Elem())
 		out := c05Call(func() error { return httpx.Parse(r, got.Interface()) })
 		mu.Lock()
@@ -409,7 +436,7 @@ func c05InterpHTTP(c c05HTTPCase) (v kit.Verdict) {
 	send := func() c05Outcome {
 		out := c05Call(func() error {
 			var err error
-			resp, err = httpc.Do(context.Background(), http.MethodPost, srv.URL+pattern, sent.Interface())
+			resp, err = httpc.Do(context.Background(), method, srv.URL+pattern, sent.Interface())
 			return err
 		})
 		if resp != nil {
